@@ -479,3 +479,118 @@ func TestVerifHHSplit(t *testing.T) {
 	}
 	vtrace.Done("TestVerifHHSplit", map[string]interface{}{"cases": len(in.Cases)})
 }
+
+// ---- (d) service level (specs/hhqueue/HHService.tla): writers against the periodic purge of processors -------
+
+func TestVerifHHServiceStress(t *testing.T) {
+	rounds := vtrace.EnvInt("VERIF_ROUNDS", 12)
+	delivered := 0
+	for r := 0; r < rounds; r++ {
+		root, _ := os.MkdirTemp(os.Getenv("VERIF_SCRATCH"), "hhsvc")
+		w, m := &vpWriter{}, &vpMeta{active: 1}
+		cfg := NewConfig()
+		cfg.Dir = filepath.Join(root, "hh")
+		cfg.PurgeInterval = toml.Duration(time.Duration(vtrace.EnvInt("VERIF_SVC_PURGE_US", 1000)) * time.Microsecond) // the purge pass runs constantly
+		cfg.RetryInterval = toml.Duration(time.Duration(vtrace.EnvInt("VERIF_SVC_RETRY_US", 1000)) * time.Microsecond) // so does the sender: queues are mostly empty
+		cfg.RetryMaxInterval = toml.Duration(5 * time.Millisecond)
+		s := NewService(cfg, w)
+		s.MetaClient = m
+		if err := s.Open(); err != nil {
+			t.Fatal(err)
+		}
+		var wg sync.WaitGroup
+		var okMu sync.Mutex
+		ok := map[int]bool{}
+		for a := 0; a < 6; a++ {
+			wg.Add(1)
+			go func(a int) {
+				defer wg.Done()
+				for k := 0; k < 150; k++ {
+					id := (a+1)*100000 + k
+					shard, node := uint64(1+a%2), uint64(2+a%3)
+					if err := s.WriteShard(shard, node, []models.Point{vpPoint(id)}); err == nil {
+						okMu.Lock()
+						ok[id] = true
+						okMu.Unlock()
+					}
+					if k%3 == 0 {
+						time.Sleep(200 * time.Microsecond) // pacing only: lets queues drain so that the purge sees them empty
+					}
+				}
+			}(a)
+		}
+		wg.Wait()
+		if err := s.Close(); err != nil {
+			t.Fatal(err)
+		}
+		if os.Getenv("VERIF_DEBUG") != "" {
+			n := 0
+			for node := 2; node <= 4; node++ {
+				for shard := 1; shard <= 2; shard++ {
+					ids, err := vpPendingOnDisk(filepath.Join(cfg.Dir, fmt.Sprint(node), fmt.Sprint(shard)))
+					n += len(ids)
+					vtrace.Out(map[string]interface{}{"k": "debug", "when": "after-close-1", "node": node, "shard": shard, "pending": len(ids), "err": fmt.Sprint(err)})
+				}
+			}
+			okMu.Lock()
+			vtrace.Out(map[string]interface{}{"k": "debug", "when": "after-close-1", "total_pending": n, "acked": len(ok), "delivered": len(w.got)})
+			okMu.Unlock()
+		}
+		// restart: everything still on disk is sent
+		s2 := NewService(cfg, w)
+		s2.MetaClient = m
+		if err := s2.Open(); err != nil {
+			t.Fatal(err)
+		}
+		deadline := time.Now().Add(20 * time.Second)
+		for {
+			drained := true
+			for node := uint64(2); node <= 4; node++ {
+				for shard := uint64(1); shard <= 2; shard++ {
+					if !s2.Empty(shard, node) {
+						drained = false
+					}
+				}
+			}
+			if drained || time.Now().After(deadline) {
+				break
+			}
+			time.Sleep(2 * time.Millisecond)
+		}
+		s2.Close()
+		w.mu.Lock()
+		seen := map[int]bool{}
+		for _, id := range w.got {
+			seen[id] = true
+		}
+		delivered += len(w.got)
+		w.mu.Unlock()
+		// what is still queued on disk is not lost either
+		onDisk := 0
+		for node := 2; node <= 4; node++ {
+			for shard := 1; shard <= 2; shard++ {
+				ids, err := vpPendingOnDisk(filepath.Join(cfg.Dir, fmt.Sprint(node), fmt.Sprint(shard)))
+				if err == nil {
+					for _, id := range ids {
+						seen[id] = true
+						onDisk++
+					}
+				}
+			}
+		}
+		var lost []int
+		for id := range ok {
+			if !seen[id] {
+				lost = append(lost, id)
+			}
+		}
+		sort.Ints(lost)
+		os.RemoveAll(root)
+		if len(lost) > 0 {
+			vtrace.Mismatch("hhservice:lost", fmt.Sprintf("round %d: %d hinted writes were accepted by Service.WriteShard (node active the whole time) but were neither handed to the shard writer (before or after restart) nor are still queued on disk (%d are); first ids %v", r, len(lost), onDisk, lost[:min(5, len(lost))]),
+				map[string]interface{}{"test": "SVC", "round": r})
+			break
+		}
+	}
+	vtrace.Done("TestVerifHHServiceStress", map[string]interface{}{"rounds": rounds, "delivered": delivered})
+}
